@@ -153,6 +153,127 @@ func errName(err error) string {
 	return "other"
 }
 
+// a scripted operation: k selects the branch of the operation switch
+type fop struct {
+	k     int
+	a     string
+	addrs []string
+	exp   int64
+	age   int64
+}
+
+const (
+	kAddPeer         = 0
+	kAddPeers        = 6
+	kSetTrusted      = 10
+	kRemove          = 12
+	kIncRetry        = 13
+	kResetRetry      = 14
+	kSetIncoming     = 15
+	kClearOld        = 16
+	kSetAllUntrusted = 18
+	kAged            = 20
+)
+
+// makeScenario builds a scripted prefix around one threshold constant:
+//
+//	retry:   MaxPeerRetryTimes (10) crossed by -1/0/+1/+2 IncreaseRetryTimes on a trusted
+//	         and an untrusted peer, then both aged around the expiration, then clearOld
+//	evict:   a full list whose peers are aged around the one-day eviction age (86400 s),
+//	         some trusted, then AddPeer of a new address
+//	bulk:    a list filled to Max-2 .. Max, then AddPeers of 1..4 (partly known) addresses
+//	expire:  peers aged to expiration -10 / +10 / far beyond for each clearOld period
+func makeScenario(r *Rng, pool []string, max int, idx int) ([]fop, int, string) {
+	valid := []string{pool[0], pool[1], pool[2], pool[3], pool[4], pool[9], pool[10], pool[11]}
+	r2 := func(n int) int { return r.Intn(n) }
+	perm := append([]string{}, valid...)
+	for i := len(perm) - 1; i > 0; i-- {
+		j := r2(i + 1)
+		perm[i], perm[j] = perm[j], perm[i]
+	}
+	exps := []int64{3600, 86400, 604800, 30}
+	var s []fop
+	which := r2(5)
+	if idx < 8 { // the first sequences of every run walk the retry limit systematically
+		which = 0
+	}
+	switch which {
+	case 0, 4:
+		max = []int{0, 3, 5}[r2(3)]
+		exp := exps[r2(len(exps))]
+		a, b := perm[0], perm[1]
+		s = append(s, fop{k: kAddPeer, a: a}, fop{k: kAddPeer, a: b}, fop{k: kSetTrusted, a: a})
+		if idx >= 8 && r.Chance(25) {
+			s = append(s, fop{k: kSetTrusted, a: b})
+		}
+		na, nb := 9+r2(4), 9+r2(4)
+		systematic := idx < 8
+		if systematic {
+			na, nb = 9+idx%4, 9+(idx+1)%4
+		}
+		for i := 0; i < na; i++ {
+			s = append(s, fop{k: kIncRetry, a: a})
+		}
+		for i := 0; i < nb; i++ {
+			s = append(s, fop{k: kIncRetry, a: b})
+		}
+		if !systematic && r.Chance(20) { // a reset in between brings the counter back below the limit
+			s = append(s, fop{k: kResetRetry, a: []string{a, b}[r2(2)]}, fop{k: kIncRetry, a: a})
+		}
+		d := []int64{-10, 10, 10, 1000}
+		da, db := d[r2(4)], d[r2(4)]
+		if systematic {
+			da, db = 10, 10
+		}
+		s = append(s, fop{k: kAged, a: a, age: exp + da}, fop{k: kAged, a: b, age: exp + db})
+		if !systematic && r.Chance(15) {
+			s = append(s, fop{k: kSetAllUntrusted})
+		}
+		s = append(s, fop{k: kClearOld, exp: exp})
+		return s, max, "retry-limit"
+	case 1:
+		max = []int{1, 3, 5}[r2(3)]
+		for i := 0; i < max; i++ {
+			s = append(s, fop{k: kAddPeer, a: perm[i]})
+		}
+		for i := 0; i < max; i++ {
+			if r.Chance(35) {
+				s = append(s, fop{k: kSetTrusted, a: perm[i]})
+			}
+			if r.Chance(80) {
+				s = append(s, fop{k: kAged, a: perm[i], age: 86400 + []int64{-10, 10, 10, 1000, -1000}[r2(5)] + int64(i)})
+			}
+		}
+		s = append(s, fop{k: kAddPeer, a: perm[max]}, fop{k: kAddPeer, a: perm[max+1]})
+		return s, max, "evict-age"
+	case 2:
+		max = []int{3, 5}[r2(2)]
+		fill := max - r2(3)
+		for i := 0; i < fill; i++ {
+			s = append(s, fop{k: kAddPeer, a: perm[i]})
+		}
+		n := 1 + r2(4)
+		addrs := make([]string, n)
+		for i := range addrs {
+			addrs[i] = perm[r2(len(perm))]
+		}
+		s = append(s, fop{k: kAddPeers, addrs: addrs}, fop{k: kAddPeers, addrs: []string{perm[6], perm[7], perm[5]}})
+		return s, max, "bulk-cap"
+	default:
+		max = []int{0, 5}[r2(2)]
+		exp := exps[r2(len(exps))]
+		for i := 0; i < 4; i++ {
+			s = append(s, fop{k: kAddPeer, a: perm[i]})
+		}
+		s = append(s, fop{k: kSetTrusted, a: perm[r2(4)]})
+		for i := 0; i < 4; i++ {
+			s = append(s, fop{k: kAged, a: perm[i], age: exp + []int64{-10, 10, 100000, -exp + 5}[r2(4)]})
+		}
+		s = append(s, fop{k: kClearOld, exp: exp})
+		return s, max, "expiration"
+	}
+}
+
 func main() { Main(run) }
 
 func run(args []string) error {
@@ -208,6 +329,15 @@ func run(args []string) error {
 	for attempts := 0; seqDone < nseq && attempts < nseq*3; attempts++ {
 		max := []int{0, 1, 3, 3, 5}[r.Intn(5)]
 		allow := r.Chance(30)
+		// half of the sequences start with a scripted scenario around one threshold
+		// constant of pex.go / peerlist.go (MaxPeerRetryTimes, the one-day eviction
+		// age, Config.Max, the clearOld expiration), then continue randomly
+		var script []fop
+		scenario := "random"
+		if attempts < 8 || r.Chance(55) {
+			script, max, scenario = makeScenario(r, pool, max, attempts)
+		}
+		hist.Add("seq:scenario=" + scenario)
 		px := pex.VerifC26New(max, allow)
 		var steps []string
 		var trace []string
@@ -225,12 +355,25 @@ func run(args []string) error {
 			}
 			return d[r.Intn(len(d))].Addr
 		}
-		nops := 10 + r.Intn(25)
+		nops := len(script) + 4 + r.Intn(20)
+		basePick, baseExisting := pick, existing
 		for j := 0; j < nops && !straddle; j++ {
 			pre := px.VerifC26Dump()
 			t0 := time.Now().Unix()
 			var opS, outS, kind string
-			switch k := r.Intn(25); {
+			k := r.Intn(25)
+			var forced *fop
+			pick, existing = basePick, baseExisting
+			if j < len(script) {
+				forced = &script[j]
+				k = forced.k
+				if forced.a != "" {
+					fa := forced.a
+					pick = func() string { return fa }
+					existing = pick
+				}
+			}
+			switch {
 			case k < 6: // AddPeer
 				a := pick()
 				err := px.AddPeer(a)
@@ -264,7 +407,11 @@ func run(args []string) error {
 				n := r.Intn(6)
 				addrs := make([]string, n)
 				for i := range addrs {
-					addrs[i] = pick()
+					addrs[i] = basePick()
+				}
+				if forced != nil && forced.addrs != nil {
+					addrs = forced.addrs
+					n = len(addrs)
 				}
 				nvalid := 0
 				for _, a := range addrs {
@@ -320,7 +467,7 @@ func run(args []string) error {
 				hist.Add("op:IncreaseRetryTimes")
 			case k < 15:
 				a := existing()
-				if r.Bool() {
+				if forced != nil || r.Bool() {
 					px.ResetRetryTimes(a)
 					opS, outS, kind = "ResetRetry "+strCoq(a)+" "+zref(t0), "ONone", fmt.Sprintf("ResetRetryTimes(%q)", a)
 				} else {
@@ -346,6 +493,9 @@ func run(args []string) error {
 			case k < 18: // clearOld with an expiration no peer is within 3 s of
 				exps := []int64{3600, 86400, 604800, 30}
 				exp := exps[r.Intn(len(exps))]
+				if forced != nil {
+					exp = forced.exp
+				}
 				ok := true
 				for _, p := range pre {
 					d := t0 - p.LastSeen - exp
@@ -360,7 +510,7 @@ func run(args []string) error {
 				opS, outS, kind = fmt.Sprintf("ClearOld %d %s", exp, zref(t0)), "ONone", fmt.Sprintf("clearOld(%ds)", exp)
 				hist.Add("op:clearOld")
 			case k < 19:
-				if r.Chance(70) {
+				if forced == nil && r.Chance(70) {
 					continue
 				}
 				px.VerifC26SetAllUntrusted()
@@ -370,6 +520,9 @@ func run(args []string) error {
 				a := existing()
 				ages := []int64{100, 3700, 50000, 86000, 86400 + 50, 100000, 200000, 700000}
 				t := t0 - ages[r.Intn(len(ages))] - int64(r.Intn(20))
+				if forced != nil {
+					t = t0 - forced.age
+				}
 				px.VerifC26SetLastSeen(a, t)
 				opS, outS, kind = fmt.Sprintf("Aged %s %s", strCoq(a), zref(t)), "ONone", fmt.Sprintf("aged(%q,%d)", a, t0-t)
 				hist.Add("op:aged")
